@@ -1,3 +1,4 @@
+use rusty_linter::core::QBNumberCast;
 use rusty_parser::BuiltInFunction;
 
 use crate::RuntimeError;
@@ -9,10 +10,11 @@ pub fn run<S: InterpreterTrait>(interpreter: &mut S) -> Result<(), RuntimeError>
         .variables()
         .get_arg_path(0)
         .expect("VARSEG should have a variable");
-    let address = interpreter.context().calculate_varseg(path);
+    // VARSEG is an INTEGER function: a segment that does not fit an INTEGER is an Overflow
+    let address: i32 = (interpreter.context().calculate_varseg(path) as i64).try_cast()?;
     interpreter
         .context_mut()
-        .set_built_in_function_result(BuiltInFunction::VarSeg, address as i32);
+        .set_built_in_function_result(BuiltInFunction::VarSeg, address);
     Ok(())
 }
 
